@@ -295,6 +295,9 @@ def main():
                     seqs.append(ArraySequence(seqs[int(f[1])], **kw))
                 elif o == 'copy':
                     seqs.append(seqs[int(f[1])].copy())
+                elif o == 'dcopy':
+                    import copy as _copy
+                    seqs.append(_copy.deepcopy(seqs[int(f[1])]))
                 elif o == 'seti':
                     seqs[int(f[1])][int(f[2])] = int(f[3])
                 elif o == 'setr':
